@@ -85,16 +85,16 @@ def handle (op : String) (args impl : List String) : Option Reply :=
     match b.toParams with
     | none => pure (exact "panic" (" ".intercalate impl) "na")
     | some par =>
-      let out := digest par s
+      match digestP par s with
+      | none => pure (exact "panic" (" ".intercalate impl) "na")
+      | some out =>
       let model := outList outDigest out
       let spec : String :=
         match run (list pDigest) impl with
         | none => "na"
         | some iout =>
-          -- the O(n²)-enumeration spec on the IMPLEMENTATION's peptides (size-capped: the generator
-          -- stays below the cap)
-          if (cands par s).length * (iout.length + 1) > 3000000 then "na"
-          else specVerdict par s iout
+          -- naive O(n²) spec up to 160 residues, comparison with the proved model beyond
+          digestVerdict par s out iout
       pure (exact model (" ".intercalate impl) spec)
   | "fasta" => do
     let (tag, gen, text) ← run (do let t ← bytes; let g ← bool; let x ← bytes; pure (t, g, x)) args
